@@ -22,8 +22,8 @@ func scenarios(tier string) []engine.Scenario {
 	// Scenario i runs on worker i mod 16: the catalogue is emitted group by group so that scenarios of
 	// one kind (= similar cost) are spread over all workers.
 	groups := map[string][]engine.Scenario{}
-	order := []string{"gk", "rlk", "evk", "enc", "stat", "pk", "known"}
-	bound, nps, logNs := 2, []int{0, 1, 2}, []int{4}
+	order := []string{"gk", "rlk", "evk", "enc", "seq", "stat", "pk", "known"}
+	bound, nps, logNs := 2, []int{0, 1, 2}, []int{4, 5}
 	if tier == "thorough" {
 		bound, nps = 3, []int{0, 1, 2, 3}
 	}
@@ -31,8 +31,8 @@ func scenarios(tier string) []engine.Scenario {
 		for ci, ch := range qChains(tier) {
 			for _, np := range nps {
 				lns := logNs
-				if ci == 0 || tier == "thorough" { // one shape (all in thorough) also at N=32
-					lns = []int{4, 5}
+				if tier == "thorough" {
+					lns = []int{4, 5, 6}
 				}
 				for _, logN := range lns {
 					groups["enc"] = append(groups["enc"], encScenario(rt, logN, ch, np, bound))
@@ -40,9 +40,12 @@ func scenarios(tier string) []engine.Scenario {
 						groups["known"] = append(groups["known"], knownEncScenario(rt, logN, ch, np))
 					}
 					groups["stat"] = append(groups["stat"], statScenario(rt, logN, ch, np))
-					if logN == 4 {
+					if logN == 4 || ci == 0 || tier == "thorough" {
+						groups["seq"] = append(groups["seq"], seqScenario(rt, logN, ch, np, 2))
+					}
+					if logN == 4 || (logN == 5 && ci == 0) {
 						for _, kind := range keyKinds {
-							groups[kind] = append(groups[kind], keyScenario(rt, logN, ch, np, kind, bound, tier == "thorough" && ci < 2))
+							groups[kind] = append(groups[kind], keyScenario(rt, logN, ch, np, kind, bound, tier == "thorough"))
 						}
 						groups["pk"] = append(groups["pk"], keyScenario(rt, logN, ch, np, "pk", -1, false))
 					}
@@ -64,7 +67,7 @@ func expect(tier string) []string {
 		"dec=0", "dec=1", "dec=2", "stat-key=sk", "stat-key=pk", "stat-probe=zero-pk", "stat-probe=pk-QP",
 		"keys-kind=pk", "keys-kind=rlk", "keys-kind=gk", "keys-kind=evk", "keys-compressed=true", "keys-compressed=false",
 		"keys-LevelP=-1", "keys-LevelP=0", "keys-LevelP=1", "keys-LevelQ=below-max", "keys-LevelQ=max", "keys-tail=#P-does-not-divide-#Q"}
-	for _, k := range []string{sigMontSk, sigMontPkNoP, sigDeg2Sk, sigDeg0Pk, sigTernaryXe, sigTernaryXeKey, "none(control)"} {
+	for _, k := range []string{sigMontSk, sigMontPkNoP, sigDeg2Sk, sigDeg0Pk, "none(control)"} {
 		e = append(e, "known-class="+k)
 	}
 	for _, n := range provNames {
